@@ -272,7 +272,7 @@ func (k *Keys) ReadKey() (key rune, isAbort bool) {
 		k.macroKeys = k.macroKeys[1:]
 		k.fed = true
 
-	case len(k.buf) > 0:
+	case len(k.buf) > 0 && utf8.FullRune(k.buf):
 		// Keys that were read along with the command's own
 		// keys (typed ahead or pasted) are its arguments.
 		key = k.popRune()
@@ -283,7 +283,8 @@ func (k *Keys) ReadKey() (key rune, isAbort bool) {
 	default:
 		// A read can yield no keys at all (it failed, or only
 		// contained a cursor position report): keep reading.
-		for len(k.buf) == 0 {
+		// (or have ended in the middle of a multibyte character)
+		for len(k.buf) == 0 || !utf8.FullRune(k.buf) {
 			// If the input is closed, abort the pending command.
 			buf, err := k.readInputFiltered()
 			if err != nil {
